@@ -56,7 +56,7 @@ func WorkerMain() {
 		Repo:    envOr("VERIF_REPO", "/repo"),
 		Verif:   envOr("VERIF_ROOT", "/verif"),
 	}
-	debug.SetMaxStack(64 << 20)
+	debug.SetMaxStack(maxStack())
 	// never outlive the coordinator
 	ppid := os.Getppid()
 	go func() {
@@ -123,4 +123,15 @@ func Guard(f func()) (panicked bool, val any, stack string) {
 	}()
 	f()
 	return
+}
+
+// maxStack: goroutine stack cap of the worker (default 64 MiB; VERIF_MAXSTACK_MB overrides).
+func maxStack() int {
+	if v := os.Getenv("VERIF_MAXSTACK_MB"); v != "" {
+		var n int
+		if _, err := fmt.Sscanf(v, "%d", &n); err == nil && n > 0 {
+			return n << 20
+		}
+	}
+	return 64 << 20
 }
